@@ -420,7 +420,29 @@ def run(ctx):
                  'src_port': E('child_sa.tsi.get_port()'), 'dst_port': E('child_sa.tsr.get_port()'),
                  'spi': attr(child, 'outbound_spi'), 'src': attr(ike, 'my_addr'), 'dst': attr(ike, 'peer_addr'),
                  'sk_e': mk_cond(isi, attr(kp, 'sk_ei'), attr(kp, 'sk_er')), 'sk_a': mk_cond(isi, attr(kp, 'sk_ai'), attr(kp, 'sk_ar')),
-                 'mode': attr(child, 'mode'), 'ip_proto': attr(attr(child, 'tsi'), 'ip_proto')}
+                 'mode': attr(child, 'mode')}
+        # the protocol of the selector: the peer runs this function with tsi and tsr exchanged, so the value must not depend on which of
+        # the two selectors is the local one; a packet has to match both, so where one says "any" (0) the other decides (F17: the
+        # code read the local selector only)
+        pt = strip_ids(b1.get('ip_proto', NONE))
+        lp, rp = attr(attr(child, 'tsi'), 'ip_proto'), attr(attr(child, 'tsr'), 'ip_proto')
+        tab = {}
+        for p_ in (0, 6, 17):
+            for q_ in (0, 6, 17):
+                def leaf(t, p_=p_, q_=q_):
+                    if t == lp:
+                        return p_
+                    if t == rp:
+                        return q_
+                    raise tq.NoValue()
+                try:
+                    tab[(p_, q_)] = int(tq.teval(pt, leaf))
+                except (tq.NoValue, Exception):
+                    tab[(p_, q_)] = None
+        okp = all(tab[(p_, 0)] == p_ and tab[(0, p_)] == p_ and tab[(p_, p_)] == p_ for p_ in (0, 6, 17))
+        ctx.check(okp, 'O7', 'the selector protocol of the SAs is the one either traffic selector names (the same value whichever of the two '
+                  'is the local one)', key=('O7', 'selector-protocol'), site=ctx.site(cc, calls[0].node),
+                  detail={'found': tq.text(pt, 200), '(local, remote) -> installed': {str(k): v for k, v in sorted(tab.items())}})
         for k, v in want1.items():
             ctx.check(k in b1 and same(b1[k], v), 'O7', 'outbound SA: %s = %s' % (k, tq.text(v, 120)), key=('O7', 'outbound', k),
                       site=ctx.site(cc, calls[0].node), detail={'found': tq.text(b1[k], 300) if k in b1 else None})
